@@ -3,6 +3,11 @@
 import json, sys
 BASE_OFF = "cd /repo && go test -mod=mod -json -vet=off -count=1 -timeout 25m ./..."
 checks = {
+ "C03": dict(cat="model_checking", design="§4 C03",
+   text="BlockValid.tla states validity as a conjunction of named predicates over abstract field values (relations to the ledger state) and enumerates every single and double mutation of a valid user send, user receive and contract receive at every re-hash / re-sign level, with the predicted verdict (a mutation may yield another valid block); TLC checks OriginalValid and RawAlterationInvalid. Every single mutation and a seeded third of the double ones are built on a fixture history and offered to a fresh real follower; accepted (the block is now part of the account's chain) must equal the prediction.",
+   note="one concrete ledger state and one concrete value per abstract value; uncovered fields are C13's, plasma/PoW boundaries C12's; the enforced receiver regime is replayed (the legacy regime is the C01/C04 finding)",
+   technique="TLA+ spec BlockValid.tla + TLC; replay of all mutation cells on real nodes"),
+
  "C05": dict(cat="model_checking", design="§4 C05",
    text="Election.tla transcribes SelectProducers (order by weight and name, cyclic fill, top group, second chance, random picks, shuffle) with math/rand's permutation as data; TLC checks on every configuration of <= 5 pillars with weights 0..2 and every possible permutation: exactly NodeCount slots, every slot a registered pillar, no duplicates when enough pillars, independence of the input order. Schedules reported by the real SelectProducers (seeded configurations, small and real group sizes) and by four differently built real nodes for every tick of a history (live producer, follower, restarted follower, follower after a reorganisation across ticks) are validated by TLC against the recomputation from the delegations as of the proof momentum. Every guard of Accept is broken in turn on a valid momentum (re-hashed and re-signed where an attacker would) and replayed through InsertChain.",
    note="math/rand is an input; the 'not in the future' guard is probed against the wall clock",
